@@ -22,6 +22,7 @@ import (
 	"github.com/tikv/pd/pkg/mock/mockcluster"
 	"github.com/tikv/pd/server/config"
 	"github.com/tikv/pd/server/core"
+	"github.com/tikv/pd/server/core/storelimit"
 	"github.com/tikv/pd/server/schedule"
 	"github.com/tikv/pd/server/schedule/filter"
 	"github.com/tikv/pd/server/schedule/operator"
@@ -75,6 +76,10 @@ type caseIn struct {
 	Ops            []opSpec    `json:"ops"`
 	Gen            string      `json:"gen,omitempty"`
 	Probe          *probeIn    `json:"probe,omitempty"` // via == "probe": arbitrary steps on an arbitrary region
+	// ExecSeed != 0: the built operator is additionally run by a real OperatorController (AddOperator, Dispatch on
+	// heartbeats; commands applied or lost, leadership moved between heartbeats at unchanged epoch); the seed fixes
+	// every choice of that run
+	ExecSeed uint64 `json:"exec_seed,omitempty"`
 }
 
 var roleOfName = map[string]metapb.PeerRole{"voter": metapb.PeerRole_Voter, "learner": metapb.PeerRole_Learner,
@@ -557,8 +562,109 @@ func (rn *runner) execute(region *core.RegionInfo, steps []operator.OpStep) (coq
 	return
 }
 
+type execEntry struct {
+	Event   string   `json:"event"`
+	Region  string   `json:"region"`
+	Sent    []string `json:"sent"`
+	Running bool     `json:"running"`
+}
+
+// executor runs the operator through a real OperatorController over the case's cluster.
+func (rn *runner) executor(w *world, c *caseIn, op *operator.Operator, steps []operator.OpStep) (string, []execEntry) {
+	r := rng.New(c.ExecSeed)
+	ctx, cancel := context.WithCancel(context.Background())
+	defer cancel()
+	for _, st := range w.tc.GetStores() {
+		w.tc.SetStoreLimit(st.GetID(), storelimit.AddPeer, 6e7)
+		w.tc.SetStoreLimit(st.GetID(), storelimit.RemovePeer, 6e7)
+	}
+	sim := tikvsim.New(w.region)
+	origin := sim.Region() // without pending / down peers: the executor model reads IsFinish without them
+	w.tc.PutRegion(origin)
+	oc := schedule.NewOperatorController(ctx, w.tc, rn.rec.HB)
+	rn.rec.Collect()
+	var xs []string
+	var js []execEntry
+	var inbox []*pdpb.RegionHeartbeatResponse
+	observe := func(ev string, hb bool, region *core.RegionInfo) bool {
+		sent := rn.rec.Collect()
+		inbox = append(inbox, sent...)
+		running := oc.GetOperator(region.GetID()) != nil
+		cs := make([]string, len(sent))
+		for i, m := range sent {
+			cs[i] = strings.TrimPrefix(strings.TrimSuffix(strings.TrimSpace(coqCmd(m)), ")"), "(Some ")
+		}
+		xs = append(xs, fmt.Sprintf("XObs %s %s %s %s", coqfmt.Bool(hb), coqRegion(region, sim.Rng), coqfmt.List(cs), coqfmt.Bool(running)))
+		js = append(js, execEntry{Event: ev, Region: coqRegion(region, sim.Rng), Sent: cs, Running: running})
+		return running
+	}
+	if !oc.AddOperator(op) {
+		rn.rec.Collect()
+		return "", nil
+	}
+	observe("AddOperator", false, origin)
+	prevLeader := uint64(0)
+	for round := 0; round < 3*len(steps)+6; round++ {
+		for _, m := range inbox {
+			if r.Pct(25) {
+				js = append(js, execEntry{Event: "command lost: " + strings.TrimSpace(coqCmd(m))})
+				continue
+			}
+			err := sim.CheckAddress(m)
+			if err == nil {
+				err = sim.Apply(m)
+			}
+			res := "applied"
+			if err != nil {
+				res = "refused (" + err.Error() + ")"
+			}
+			js = append(js, execEntry{Event: "command " + res + ": " + strings.TrimSpace(coqCmd(m))})
+		}
+		inbox = nil
+		if r.Pct(35) {
+			// an election: leadership moves to another voter, the epoch does not change
+			var cands []*metapb.Peer
+			for _, p := range sim.Meta.Peers {
+				if p.StoreId != sim.Leader.GetStoreId() && p.Role != metapb.PeerRole_Learner {
+					cands = append(cands, p)
+				}
+			}
+			if len(cands) > 0 {
+				to := cands[r.Intn(len(cands))]
+				if r.Pct(60) {
+					for _, p := range cands {
+						if p.StoreId == prevLeader {
+							to = p
+						}
+					}
+				}
+				prevLeader = sim.Leader.GetStoreId()
+				if sim.TransferLeader(to) == nil {
+					js = append(js, execEntry{Event: fmt.Sprintf("election: leader moves to store %d", to.StoreId)})
+				}
+			}
+		}
+		cur := sim.Region()
+		if cur.GetLeader().GetStoreId() != prevLeader && prevLeader == 0 {
+			prevLeader = origin.GetLeader().GetStoreId()
+		}
+		w.tc.PutRegion(cur)
+		oc.Dispatch(cur, schedule.DispatchFromHeartBeat)
+		if !observe("heartbeat", true, cur) {
+			break
+		}
+	}
+	ss := make([]string, len(steps))
+	for i, st := range steps {
+		ss[i] = coqStep(st)
+	}
+	return fmt.Sprintf("CExec %s %s\n   %s", coqRegion(origin, 0), coqfmt.List(ss), coqfmt.List(xs)), js
+}
+
 type caseOut struct {
 	In    caseIn       `json:"in"`
+	Exec  []execEntry  `json:"executor,omitempty"`
+	execCoq string
 	Err   string       `json:"build_error,omitempty"`
 	Steps []string     `json:"steps,omitempty"`
 	Trace []traceEntry `json:"trace,omitempty"`
@@ -599,6 +705,9 @@ func runCase(rn *runner, c *caseIn) caseOut {
 	var tr []string
 	if len(steps) > 0 {
 		tr, out.Trace = rn.execute(w.region, steps)
+		if c.ExecSeed != 0 && op.Len() == len(steps) {
+			out.execCoq, out.Exec = rn.executor(w, c, op, steps)
+		}
 	}
 	regionTerm := coqRegion(w.region, 0)
 	if c.Via == "LeaveJoint" {
@@ -944,6 +1053,9 @@ func genRandom(r *rng.R, n int) *caseIn {
 			st = others[r.Intn(len(others))]
 		}
 		c.Ops = []opSpec{{K: "leader", Store: st}}
+	}
+	if r.Pct(35) {
+		c.ExecSeed = 1 + r.U64()%1000000
 	}
 	return c
 }
@@ -1371,6 +1483,17 @@ func main() {
 			panic(err)
 		}
 		all = append(all, o)
+		if o.execCoq != "" {
+			R.Count("gen:executor")
+			for _, e := range o.Exec {
+				R.Count("exec:" + strings.SplitN(e.Event, ":", 2)[0])
+			}
+			R.Case(o.execCoq, len(o.Exec) > 3)
+			if err := cf.Add(o.execCoq); err != nil {
+				panic(err)
+			}
+			all = append(all, caseOut{In: o.In, Steps: o.Steps, Exec: o.Exec})
+		}
 	}
 
 	for _, f := range []string{*corpus, *replay} {
